@@ -35,7 +35,7 @@ REQUIRED_PROBES = {
 }
 
 BLOCK = 64
-KINDS = ["none", "bytes", "str", "str_nonascii", "bytearray", "memoryview", "array_b", "array_h", "bytesio", "textio", "file_offset", "file_tell_raises", "file_no_tell", "file_short_reads", "file_seek_none", "list", "generator", "iter_empty_chunks", "list_str"]
+KINDS = ["none", "bytes", "str", "str_nonascii", "bytearray", "memoryview", "array_b", "array_h", "bytesio", "textio", "textfile_readahead", "file_offset", "file_tell_raises", "file_no_tell", "file_short_reads", "file_seek_none", "list", "generator", "iter_empty_chunks", "list_str"]
 SIZES = [0, 1, BLOCK - 1, BLOCK, BLOCK + 1, 5 * BLOCK]
 NO_BODY_METHODS = {"GET", "HEAD", "DELETE", "TRACE", "OPTIONS", "CONNECT"}
 
@@ -103,6 +103,13 @@ def make_body(spec):
     if kind == "textio":
         s = ("aé" * (n // 2 + 1))[:n]
         return io.StringIO(s), s.encode("utf-8")
+    if kind == "textfile_readahead":
+        # a real text-mode file object positioned by *reading* (a header line consumed first): the wrapper has read ahead, so its
+        # own position and that of the binary buffer underneath differ
+        s = ("aé" * (n // 2 + 1))[:n]
+        f = io.TextIOWrapper(io.BytesIO(("first line\n" + s).encode("utf-8")), encoding="utf-8", newline="")
+        f.readline()
+        return f, s.encode("utf-8")
     if kind == "file_offset":
         off = min(spec.get("offset", 3), n)
         f = io.BytesIO(raw)
@@ -147,6 +154,8 @@ def gen(rng):
     elif c < 0.14 and kind in ("bytes", "str", "bytearray", "bytesio", "generator", "list"):
         fh = "cl"
     sc = {"property": ID, "entry": rng.choice(["pool", "pm"]), "method": method, "body": spec, "chunked": rng.random() < 0.3, "framing_header": fh, "history": hist}
+    if rng.random() < 0.25:
+        sc["retry_total_none"] = True
     if rng.random() < 0.3:
         sc["call"] = "request"  # through RequestMethods.request() (which routes by method) instead of urlopen()
     if rng.random() < 0.08:
@@ -198,6 +207,9 @@ def run(sc: dict) -> Result:
     elif sc["framing_header"] == "cl":
         hdrs["Content-Length"] = str(len(want))
     retries = Retry(total=4, allowed_methods=None, status_forcelist=[503], backoff_factor=0)
+    if sc.get("retry_total_none"):
+        # the same budget spelled per category, with total=None (a documented configuration)
+        retries = Retry(total=None, connect=4, read=4, status=4, other=4, redirect=6, allowed_methods=None, status_forcelist=[503], backoff_factor=0)
     with H.RunEnv(), H.quiet_warnings(), w:
         err = None
         try:
